@@ -3,6 +3,7 @@
 // injected, both run through their own initialize() + code generation + execute().
 // Oracle: bit equality of the 256-byte register file, the whole scratchpad and the rounding mode.
 #include "common/progs.hpp"
+#include "jit_compiler_x86.hpp"
 
 using namespace rxh;
 
@@ -41,6 +42,15 @@ struct Pair {
 			d += "scratchpad differs at byte " + std::to_string(k) + "; ";
 		}
 		if (fi != fj) d += "rounding mode interp=" + std::to_string(fi) + " jit=" + std::to_string(fj) + "; ";
+		// translation state: every CBRANCH must jump to the same instruction in both engines, whether or not it was taken in this run
+		{
+			randomx::InstructionByteCode* bc = bytecode_of(*I); randomx::JitCompilerX86* jc = jit_of(*J); int N = prog_size(c.v2); const uint8_t* code = jc->getCode();
+			for (int s = 0; s < N; ++s) if (bc[s].type == randomx::InstructionType::CBRANCH) {
+				int32_t off = jc->instructionOffsets[s]; int32_t rel; memcpy(&rel, code + off + 16, 4);
+				int32_t tgt = off + 20 + rel, want = jc->instructionOffsets[bc[s].target + 1];
+				if (tgt != want) { d += "CBRANCH in slot " + std::to_string(s) + ": JIT jumps to code offset " + std::to_string(tgt) + ", interpreter target is slot " + std::to_string(bc[s].target + 1) + " (offset " + std::to_string(want) + "); "; break; }
+			}
+		}
 		return d;
 	}
 };
